@@ -75,4 +75,40 @@ def manifest_history(op2: int, i2: int, op3: int, i3: int) -> bool:
     ok = consistent(doc)
     for op, i in ((OP1, 0), (op2, i2), (op3, i3)):
         ok = ok and step(doc, op, i) and consistent(doc)
+    # cloning preserves this: the clone's manifest matches the clone's content, the original's still its own
+    c = doc.clone
+    return done(ok and consistent(c) and consistent(doc) and sorted(c.container.present()) == sorted(doc.container.present()))
+
+
+OP2 = int(os.environ.get("VERIF_OP2", "0"))  # thorough tier: second operation concrete too
+
+
+def manifest_history3(i2: int, op3: int, i3: int) -> bool:
+    """
+    pre: 0 <= op3 <= 3 and 0 <= i2 <= 1 and 0 <= i3 <= 1
+    post: _
+    """
+    # same as manifest_history with the second operation kind concrete per process too (16 processes)
+    return _history3(OP2, i2, op3, i3)
+
+
+def _history3(op2, i2, op3, i3):
+    doc = Doc()
+    ok = consistent(doc)
+    for op, i in ((OP1, 0), (op2, i2), (op3, i3)):
+        ok = ok and step(doc, op, i) and consistent(doc)
+    c = doc.clone
+    return done(ok and consistent(c) and consistent(doc) and sorted(c.container.present()) == sorted(doc.container.present()))
+
+
+def manifest_history4(i2: int, op3: int, i3: int, op4: int, i4: int) -> bool:
+    """
+    pre: 0 <= op3 <= 3 and 0 <= op4 <= 3 and 0 <= i2 <= 1 and 0 <= i3 <= 1 and 0 <= i4 <= 1
+    post: _
+    """
+    # four operations (the first two kinds concrete per process, the rest and all addressed names symbolic)
+    doc = Doc()
+    ok = consistent(doc)
+    for op, i in ((OP1, 0), (OP2, i2), (op3, i3), (op4, i4)):
+        ok = ok and step(doc, op, i) and consistent(doc)
     return done(ok)
